@@ -2221,10 +2221,14 @@ pub fn check(scn: &ServerScn, log: &[Ev], sim: &Sim, node: u8) -> Vec<Violation>
                 }
             }
         }
-    } else if let Some(r) = read_eof {
-        // must end at the first idle point after the last tracked request is gone
+    }
+    if let Some(r) = read_eof {
+        // must end at the first idle point after the last tracked request is gone: an idle point
+        // after the inbound side ended at which nothing can still be in flight, and which the
+        // stream has not ended before, is a channel lingering with nothing left to do - whether
+        // it never ends or ends late (say, only when a forgotten entry's deadline passes)
         if first_fail.is_none() && killed.is_none() && stream_err.is_none() {
-            for (iseq, _) in m.idles.iter().filter(|(s, _)| *s > r) {
+            for (iseq, _) in m.idles.iter().filter(|(s, _)| *s > r && stream_end.map(|e| *s < e).unwrap_or(true)) {
                 let hi = m.incs.iter().filter(|i| i.tag != u64::MAX && m.possibly(i, *iseq)).count();
                 let pending_resp = m.incs.iter().any(|i| i.finish.is_some() && i.resp.is_empty() && !i.dup_ignored && i.cancel_read.is_none() && i.exec_done.map(|x| x > *iseq).unwrap_or(true) && i.hdrop.map(|h| h.2).unwrap_or(false));
                 if hi == 0 && !pending_resp && !stalled_at(*iseq) {
